@@ -20,6 +20,8 @@ Definition abs_opt (o : I_EDNS0) : eopt :=
       OEcs (mk_ecs (T_EDNS0_SUBNET_Family v) (T_EDNS0_SUBNET_SourceNetmask v) (T_EDNS0_SUBNET_SourceScope v)
                    (abs_ip (T_EDNS0_SUBNET_Address v)))
   | I_EDNS0_of_EDNS0_EDE _ => OOther 15
+  | I_EDNS0_of_EDNS0_COOKIE _ => OOther 10
+  | I_EDNS0_of_EDNS0_NSID _ => OOther 3
   | I_EDNS0_other tag => OOther tag
   | I_EDNS0_nil => OOther 0
   end.
@@ -195,6 +197,171 @@ Proof.
   destruct r as [|o|]; cbn [rr_has_subnet abs_rr]; try reflexivity.
   cbn [o_opts]. induction (T_OPT_Option o) as [|x xs IHx]; [reflexivity|].
   cbn [existsb map]. rewrite abs_opt_is_ecs, IHx. reflexivity.
+Qed.
+
+(* ------------------------------------------------------------------ SetEdns0: which option is forwarded *)
+(* the option loop of dnsutil.SetEdns0 (helpers.go:64), translated as a loopfunc: a type switch over the
+   options of the selected OPT that remembers the client cookie, that NSID was asked, and — the fact the
+   property depends on — the subnet option the clamp is later applied to.  [clientSubnet] is a pointer in Go,
+   nil before the loop; the translation reads it as a value, so "still nil after the loop" is "no subnet
+   option among the options" (last_subnet = None) here. *)
+Fixpoint last_subnet (l : list I_EDNS0) : option T_EDNS0_SUBNET :=
+  match l with
+  | [] => None
+  | I_EDNS0_of_EDNS0_SUBNET v :: r => match last_subnet r with Some v' => Some v' | None => Some v end
+  | _ :: r => last_subnet r
+  end.
+Definition is_nsid (o : I_EDNS0) : bool := match o with I_EDNS0_of_EDNS0_NSID _ => true | _ => false end.
+Definition abs_subnet (v : T_EDNS0_SUBNET) : ecs :=
+  mk_ecs (T_EDNS0_SUBNET_Family v) (T_EDNS0_SUBNET_SourceNetmask v) (T_EDNS0_SUBNET_SourceScope v) (abs_ip (T_EDNS0_SUBNET_Address v)).
+
+Lemma SetEdns0_loop opt : forall post pre nsid cookie cs fuel,
+  (length post < fuel)%nat ->
+  exists cookie',
+  go_SetEdns0_loop1 (pre ++ post) fuel (Z.of_nat (length pre)) nsid opt cookie cs =
+    (GoNext, (nsid || existsb is_nsid post, opt, cookie', match last_subnet post with Some v => v | None => cs end)).
+Proof.
+  induction post as [|x post IH]; intros pre nsid cookie cs fuel Hf; destruct fuel as [|lf]; try (cbn in Hf; lia).
+  - cbn [go_SetEdns0_loop1]. rewrite range_done. exists cookie. cbn. rewrite orb_false_r. reflexivity.
+  - cbn [go_SetEdns0_loop1]. rewrite range_more, go_idx_middle.
+    replace (pre ++ x :: post) with ((pre ++ [x]) ++ post) by (rewrite <- app_assoc; reflexivity).
+    rewrite next_index with (x := x).
+    destruct x as [|v|v|v|v|tag]; cbn [existsb is_nsid last_subnet orb].
+    + apply IH. cbn in Hf; lia.
+    + destruct (IH (pre ++ [I_EDNS0_of_EDNS0_SUBNET v]) nsid cookie v lf ltac:(cbn in Hf; lia)) as [c' E].
+      exists c'. rewrite E. destruct (last_subnet post); reflexivity.
+    + apply IH. cbn in Hf; lia.
+    + destruct (16 <=? go_len (T_EDNS0_COOKIE_Cookie v))%Z; apply IH; cbn in Hf; lia.
+    + destruct (IH (pre ++ [I_EDNS0_of_EDNS0_NSID v]) true cookie cs lf ltac:(cbn in Hf; lia)) as [c' E].
+      exists c'. rewrite E. rewrite orb_true_r. reflexivity.
+    + apply IH. cbn in Hf; lia.
+Qed.
+
+(* the loop never returns early and never runs out of budget; NSID is or-ed in; the OPT is untouched; the
+   subnet option it hands to the clamp is the LAST one of the list (the one before the loop if there is none) *)
+Lemma gen_SetEdns0_loop nsid opt cookie cs :
+  exists cookie',
+  go_SetEdns0_loop1_run nsid opt cookie cs =
+    (GoNext, (nsid || existsb is_nsid (T_OPT_Option opt), opt, cookie',
+              match last_subnet (T_OPT_Option opt) with Some v => v | None => cs end)).
+Proof.
+  unfold go_SetEdns0_loop1_run.
+  destruct (SetEdns0_loop opt (T_OPT_Option opt) [] nsid cookie cs (S (length (T_OPT_Option opt))) ltac:(lia)) as [c' E].
+  cbn [app length] in E. change (Z.of_nat 0) with 0%Z in E. exists c'. exact E.
+Qed.
+
+(* ... which is the model's last_ecs on the options as the drivers print them: new_opts clamps the very
+   option the code's loop selects *)
+Lemma last_subnet_is_model_last_ecs l : last_ecs (map abs_opt l) = option_map abs_subnet (last_subnet l).
+Proof.
+  induction l as [|o r IH]; [reflexivity|].
+  destruct o; cbn [map abs_opt last_ecs last_subnet]; try exact IH.
+  rewrite IH. destruct (last_subnet r); reflexivity.
+Qed.
+
+Lemma last_subnet_some_iff l : (exists v, last_subnet l = Some v) <-> existsb is_subnet l = true.
+Proof.
+  induction l as [|o r IH]; cbn; [split; [intros [v H]; discriminate|discriminate]|].
+  destruct o; cbn [is_subnet orb]; try exact IH.
+  split; [reflexivity|]. intros _. destruct (last_subnet r); eauto.
+Qed.
+
+(* ------------------------------------------------------------------ filterOut / ClearOPT *)
+(* dnsutil.filterOut translated with its predicate as a function argument (the callback is a pure function
+   of the record): for EVERY predicate the result is the list without the records it drops, order kept.
+   ClearOPT (= filterOut(msg.Extra, isOPT), a package function used as a value) and dropOtherOPT (the same
+   helper with the closure "an OPT other than the selected one" — a func literal, which the translator
+   does not take; its predicate is not translated) both go through it. *)
+Lemma filterOut_loop2 rrs drop fd : forall post pre kept fuel,
+  (length post < fuel)%nat ->
+  go_filterOut_loop2 (pre ++ post) fuel (Z.of_nat (length pre)) rrs drop fd kept =
+    (GoNext, (rrs, drop, fd, kept ++ filter (fun r => negb (drop r)) post)).
+Proof.
+  induction post as [|x post IH]; intros pre kept fuel Hf; destruct fuel as [|lf]; try (cbn in Hf; lia).
+  - cbn [go_filterOut_loop2]. rewrite range_done. cbn [filter]. rewrite app_nil_r. reflexivity.
+  - cbn [go_filterOut_loop2]. rewrite range_more, go_idx_middle.
+    replace (pre ++ x :: post) with ((pre ++ [x]) ++ post) by (rewrite <- app_assoc; reflexivity).
+    rewrite next_index with (x := x). cbn [filter].
+    destruct (drop x); cbn [negb]; rewrite IH by (cbn in Hf; lia); [reflexivity|].
+    rewrite <- app_assoc. reflexivity.
+Qed.
+
+Fixpoint first_drop (drop : I_RR -> bool) (l : list I_RR) : nat :=
+  match l with [] => O | y :: t => if drop y then O else S (first_drop drop t) end.
+
+Lemma filterOut_loop1 rrs drop : forall post pre fuel,
+  (length post < fuel)%nat ->
+  go_filterOut_loop1 (pre ++ post) fuel (Z.of_nat (length pre)) rrs drop (-1) =
+    (GoNext, (rrs, drop, if existsb drop post then Z.of_nat (length pre + first_drop drop post) else (-1)%Z)).
+Proof.
+  induction post as [|x post IH]; intros pre fuel Hf; destruct fuel as [|lf]; try (cbn in Hf; lia).
+  - cbn [go_filterOut_loop1]. rewrite range_done. reflexivity.
+  - cbn [go_filterOut_loop1]. rewrite range_more, go_idx_middle. cbn [existsb first_drop].
+    destruct (drop x) eqn:D; cbn [orb].
+    + f_equal. f_equal. f_equal. lia.
+    + replace (pre ++ x :: post) with ((pre ++ [x]) ++ post) by (rewrite <- app_assoc; reflexivity).
+      rewrite next_index with (x := x). rewrite IH by (cbn in Hf; lia).
+      destruct (existsb drop post); [|reflexivity].
+      f_equal. f_equal. f_equal. rewrite app_length. cbn [length]. lia.
+Qed.
+
+Lemma first_drop_split drop l : existsb drop l = true ->
+  exists a x b, l = a ++ x :: b /\ forallb (fun r => negb (drop r)) a = true /\ drop x = true /\ first_drop drop l = length a.
+Proof.
+  induction l as [|y t IH]; cbn; [discriminate|].
+  destruct (drop y) eqn:D; cbn [orb].
+  - intros _. exists [], y, t. repeat split; auto.
+  - intros H. destruct (IH H) as [a [x [b [E [F [G K]]]]]]. exists (y :: a), x, b. subst t. cbn. rewrite D, F. repeat split; auto.
+Qed.
+
+Lemma filter_none_dropped (drop : I_RR -> bool) a : forallb (fun r => negb (drop r)) a = true -> filter (fun r => negb (drop r)) a = a.
+Proof. induction a as [|y t IH]; cbn; [reflexivity|]. destruct (negb (drop y)); cbn; [intros H; rewrite IH by exact H; reflexivity|discriminate]. Qed.
+
+Lemma filter_nothing_to_drop (drop : I_RR -> bool) l : existsb drop l = false -> filter (fun r => negb (drop r)) l = l.
+Proof. induction l as [|y t IH]; cbn; [reflexivity|]. destruct (drop y); cbn; [discriminate|]. intros H. rewrite IH by exact H. reflexivity. Qed.
+
+(* for EVERY predicate: filterOut = filter (not dropped), order kept *)
+Lemma gen_filterOut rrs drop : go_filterOut rrs drop = filter (fun r => negb (drop r)) rrs.
+Proof.
+  unfold go_filterOut.
+  pose proof (filterOut_loop1 rrs drop rrs [] (S (length rrs)) ltac:(lia)) as H1.
+  cbn [app length] in H1. change (Z.of_nat 0) with 0%Z in H1. rewrite H1. clear H1.
+  destruct (existsb drop rrs) eqn:EX.
+  2:{ cbn. rewrite filter_nothing_to_drop by exact EX. reflexivity. }
+  destruct (first_drop_split drop rrs EX) as [a [x [b [E [F [G K]]]]]].
+  rewrite K. cbn [plus].
+  replace (Z.of_nat (length a) =? -1)%Z with false by (symmetry; apply Z.eqb_neq; lia).
+  assert (go_slice_to rrs (Z.of_nat (length a)) = a) as S1.
+  { unfold go_slice_to. rewrite Nat2Z.id, E. rewrite firstn_app, Nat.sub_diag, firstn_all. cbn. apply app_nil_r. }
+  assert (go_slice_from rrs (Z.of_nat (length a) + 1) = b) as S2.
+  { unfold go_slice_from. replace (Z.to_nat (Z.of_nat (length a) + 1)) with (length a + 1)%nat by lia.
+    rewrite E. rewrite skipn_app, skipn_all2 by lia. replace (length a + 1 - length a)%nat with 1%nat by lia. reflexivity. }
+  rewrite S1, S2.
+  assert (go_copy_at (go_make I_RR_nil (Z.of_nat (length a))) 0 a = a) as S3.
+  { unfold go_copy_at, go_make. rewrite Nat2Z.id. cbn [Z.to_nat firstn]. rewrite repeat_length, Nat.sub_0_r, Nat.min_id.
+    rewrite firstn_all. cbn [plus]. rewrite skipn_all2 by (rewrite repeat_length; lia). apply app_nil_r. }
+  rewrite S3.
+  pose proof (filterOut_loop2 rrs drop (Z.of_nat (length a)) b [] a (S (length b)) ltac:(lia)) as H2.
+  cbn [app length] in H2. change (Z.of_nat 0) with 0%Z in H2. rewrite H2.
+  rewrite E, filter_app. cbn [filter]. rewrite G. cbn [negb]. rewrite (filter_none_dropped drop a F). reflexivity.
+Qed.
+
+Lemma gen_isOPT r : go_isOPT r = match r with I_RR_of_OPT _ => true | _ => false end.
+Proof. destruct r; reflexivity. Qed.
+
+(* ClearOPT leaves a message without any OPT record (and touches nothing else): the reply to a client that
+   sent no OPT carries none — the [] of reply_ecs_counts for noedns *)
+Lemma gen_ClearOPT m :
+  T_Msg_Extra (go_ClearOPT m) = filter (fun r => negb (go_isOPT r)) (T_Msg_Extra m) /\
+  T_Msg_Answer (go_ClearOPT m) = T_Msg_Answer m /\ T_Msg_Ns (go_ClearOPT m) = T_Msg_Ns m /\
+  T_Msg_Question (go_ClearOPT m) = T_Msg_Question m /\ T_Msg_MsgHdr (go_ClearOPT m) = T_Msg_MsgHdr m.
+Proof. unfold go_ClearOPT. cbn. rewrite gen_filterOut. repeat split; reflexivity. Qed.
+
+Lemma ClearOPT_no_opt m : count_opt (map abs_rr (T_Msg_Extra (go_ClearOPT m))) = 0%nat.
+Proof.
+  destruct (gen_ClearOPT m) as [E _]. rewrite E. clear E. unfold count_opt.
+  induction (T_Msg_Extra m) as [|r l IH]; [reflexivity|].
+  cbn [filter]. rewrite gen_isOPT. destruct r; cbn [negb]; try exact IH; cbn [map abs_rr filter is_opt]; exact IH.
 Qed.
 
 (* non-vacuity: two OPT records, the subnet option (opt-out form, family 0) in the FIRST one, a cookie
